@@ -3,6 +3,7 @@ package sim
 import (
 	"context"
 	"crypto/sha256"
+	"errors"
 	"fmt"
 	"sort"
 	"strings"
@@ -119,8 +120,20 @@ func (s *c20) Build(w *World) {
 	s.victim = -1
 	if t.Chance(400) {
 		s.victim = t.Draw(n)
-		s.how = []string{"cancel", "pause"}[t.Draw(2)]
+		s.how = []string{"cancel", "pause", "refuse", "refuse"}[t.Draw(4)]
 		s.at = t.Draw(60)
+	}
+	if s.how == "refuse" {
+		// the caller's response hook refuses that sibling's responses (an application-level rejection):
+		// whatever else travels in the same message is none of its business
+		vid := s.reqs[s.victim].ID
+		s.acted = true
+		s.a.OnIncomingResponse = func(p peer.ID, r graphsync.ResponseData, a graphsync.IncomingResponseHookActions) {
+			if r.RequestID() == vid {
+				w.Probe("c20-sibling-refused")
+				a.TerminateWithError(errors.New("sim: the application refuses this response"))
+			}
+		}
 	}
 	w.AddProvider(func() []*Event {
 		var evs []*Event
@@ -129,7 +142,7 @@ func (s *c20) Build(w *World) {
 				evs = append(evs, r.IssueEvent())
 			}
 		}
-		if s.victim >= 0 && !s.acted {
+		if s.victim >= 0 && !s.acted && s.how != "refuse" {
 			r := s.reqs[s.victim]
 			if r.Returned && !r.Done() && w.Step >= s.at {
 				evs = append(evs, Inject("api", "act|A|"+r.Label+"|"+s.how, func(string) {
